@@ -276,6 +276,83 @@ def wiring(ses, rep):
     return flagged
 
 
+def nodiff(ses, rep):
+    """no diff is printed iff the texts are equal: each producer's `nothing to report` test is exact.
+    unified: returns None iff similar's ratio() is EXACTLY 1.0 (IEEE f32 comparison, ratio symbolic);
+    standard: None iff the grouped-ops iterator is empty; json: None iff grouped_ops is empty."""
+    flagged = []
+    specs = [("output_diff_unified", r"TextDiff::ratio$", "ratio"), ("output_diff", r"Peekable::peek$", "peek"), ("output_diff_json", r"Vec::is_empty$", "empty")]
+    for fname, pat, how in specs:
+        ex = ses.executor("bin", "default", inline=lambda n_, f_: False)
+        ex.max_block_visits = 1
+        probe = {}
+
+        def h(ex_, st, callee, args, dty, probe=probe, pat=pat, how=how):
+            c = canon(callee)
+            if re.search(pat, c) and "v" not in probe:
+                if how == "ratio":
+                    probe["v"] = Sym(z3.FP("ratio", z3.Float32()), "f32")
+                elif how == "empty":
+                    probe["v"] = Sym(z3.Bool("grouped_ops_is_empty"), "bool")
+                else:
+                    return NotImplemented
+                return probe["v"]
+            return NotImplemented
+        ex.hooks = [h]
+        fn = ses.need(ex, fname)
+        args = [ex.fresh_lazy(t, p) if t == "&str" or not t.startswith("&") else RefV(ex.fresh_lazy(t.lstrip("&"), p)) for p, t in fn.params]
+        outs = ex.run(fn, args)
+        n = 0
+        for pi, o in enumerate(outs):
+            if o.kind != "return":
+                continue
+            v = deref_val(ex, o.state, o.value)
+            inner = v.fields[0] if isinstance(v, Agg) and v.variant == "Ok" else v if isinstance(v, Agg) and v.variant in ("None", "Some") else None
+            inner = deref_val(ex, o.state, inner) if inner is not None else None
+            if not isinstance(inner, Agg):
+                continue
+            none = inner.variant == "None"
+            if how == "ratio":
+                if "v" not in probe:
+                    raise Inconclusive("output_diff_unified does not consult TextDiff::ratio")
+                r_ = probe["v"].t
+                one = z3.FPVal(1.0, z3.Float32())
+                dom = [z3.Not(z3.fpIsNaN(r_)), z3.fpGEQ(r_, z3.FPVal(0.0, z3.Float32())), z3.fpLEQ(r_, one)]
+                same = z3.fpEQ(r_, one)
+            elif how == "empty":
+                if "v" not in probe:
+                    raise Inconclusive("output_diff_json does not test grouped_ops.is_empty()")
+                dom, same = [], probe["v"].t
+            else:
+                pk = find_calls(o.trace, lambda x: re.search(pat, x) is not None)
+                if not pk:
+                    continue
+                dom, same = [], ex.discr(o.state, pk[0][2]) == z3.BitVecVal(0, 64)
+            n += 1
+            oid = f"nodiff/{fname}/path{pi}/{'None' if none else 'Some'}-iff-{'no' if none else 'a'}-change"
+            r, m = ses.obligation(oid, list(o.pc) + dom, z3.Not(same) if none else same,
+                                  "`nothing to report` is returned exactly when the diff engine reports no change")
+            if r == "sat":
+                what = (f"{fname} reports no difference although the texts differ" if none else f"{fname} prints a diff for identical texts")
+                if how == "ratio" and none:
+                    what += f" (similarity ratio {m.eval(r_)})"
+                flagged.append((oid, what, "nodiff", {"format": {"output_diff_unified": "unified", "output_diff": "standard", "output_diff_json": "json"}[fname], "missed": none}))
+        if n == 0:
+            raise Inconclusive(f"{fname}: no path returns Some/None")
+    return flagged
+
+
+def big_file_replay(fmt):
+    """a 150000-line file with one unformatted line: the diff must not vanish"""
+    binp = common.native_build("default")
+    n = 150000
+    src = "".join(f"local v{i} = {i}\n" if i != n // 2 else f"local v{i}   =   {i}\n" for i in range(n))
+    r = clireplay.run_cli(binp, {"big.lua": src}, ["--check", "--output-format", fmt, "big.lua"], timeout=300)
+    if r["rc"] == 0 and not r["out"].strip():
+        return f"--check --output-format {fmt} prints nothing and exits 0 for a {n}-line file whose line {n // 2 + 1} is not formatted", {"argv": r["argv"], "rc": r["rc"], "lines": n}
+    return None, {}
+
+
 # ------------------------------------------------------------------------------------------------ replay
 def apply_mismatches(orig_lines, mismatches):
     out = []
@@ -451,6 +528,8 @@ def confirms(fail_kinds, kind, info):
         return ("json-text", info["kind"], info["field"]) in fail_kinds or "any" in fail_kinds
     if kind == "json-lines":
         return ("json-lines", info["kind"]) in fail_kinds or "any" in fail_kinds
+    if kind == "nodiff":
+        return any(isinstance(k, tuple) and k[0] == "wiring" and info["format"].capitalize() == k[1] for k in fail_kinds)
     if kind == "wiring":
         return any(isinstance(k, tuple) and k[0] == "wiring" and info["format"] in (k[1], "any") for k in fail_kinds)
     return kind in fail_kinds or "any" in fail_kinds
@@ -462,11 +541,16 @@ def run(ses, rep):
                         "a mismatch whose `original` is empty is an insertion before original_start_line"]
     rep.outside += ["the unified / standard / summary texts are produced by `similar` / `console`: outside the encoding (the `no diff iff formatted` "
                     "dispatch is covered by C13)"]
-    flagged = analyse(ses, rep) + wiring(ses, rep)
+    flagged = analyse(ses, rep) + wiring(ses, rep) + nodiff(ses, rep)
     rep.samples.append({"flagged": [(f[0], f[1]) for f in flagged][:6]})
     if flagged:
         fails = battery()
         for oid, what, kind, info in flagged:
+            if kind == "nodiff" and info.get("missed"):
+                v, rec = big_file_replay(info["format"])
+                if v:
+                    rep.add(oid, rep.violation({"obligation": kind, "format": info["format"]}, {"what": what, "observed": v, **rec}), v)
+                    continue
             hit = [f for f in fails if confirms(f[0], kind, info)]
             if not hit:
                 rep.add(oid, "inconclusive", f"solver model ({what}) did not reproduce on the native build (diff battery)")
